@@ -1,83 +1,99 @@
-import XjsModel.Proofs.ParserLen
-import XjsModel.Spec.TreeShape
+import XjsModel.Proofs.ParserTokens
+import XjsModel.Proofs.Tactics
 /-
-  C11 (e): a parse step that records no error returns a complete node (every mandatory child present,
-  recursively). Motive: `errors only grow ∧ (complete ∨ an error was recorded)`.
+  The token-faithfulness pass (C12, C01, C02): a parse step that records no error has consumed exactly the
+  token sequence of the node it returns (without `;` and `,`), in order — nothing skipped, nothing invented.
 -/
 namespace Xjs
 set_option linter.unusedSimpArgs false
 set_option linter.unusedVariables false
 
-theorem cmp_parseFunctionParameters (st : PS) (x : List Ident) (st' : PS) (h : parseFunctionParameters st = some (x, st')) :
-    st.elen ≤ st'.elen ∧ (True ∨ st.elen < st'.elen) := ⟨elen_parseFunctionParameters h, Or.inl trivial⟩
-
-syntax "cmp_close" : tactic
+syntax "tok_close" : tactic
 macro_rules
-  | `(tactic| cmp_close) => `(tactic| (
+  | `(tactic| tok_close) => `(tactic| (
       simp only [elen_next, elen_push, elen_pop, elen_addError, elen_addErrorAt, elen_set, elen_setPrec, elen_setTrace,
         elen_expectToken, elen_expectSemi] at *
       first
         | (refine ⟨?_, Or.inr ?_⟩ <;> first | omega | (simp_all [expErr, semiErr] <;> omega))
         | (refine ⟨?_, Or.inl ?_⟩
            · first | omega | (simp_all [expErr, semiErr] <;> omega)
-           · simp_all [Expr.complete, Stmt.complete, ExprList.complete, StmtList.complete, PropList.complete, StmtList.complete_snoc, ExprList.complete_snoc, PropList.complete_snoc, Expr.isNone, Stmt.isNone, expErr, semiErr])))
+           · first
+               | (intro P hP; spec_all P
+                  have hP' := append_ext hP
+                  (simp_all (maxDischargeDepth := 6) [expErr, semiErr, Expr.flat, Stmt.flat, ExprList.flat, StmtList.flat, PropList.flat, ExprList.flat_snoc, StmtList.flat_snoc, PropList.flat_snoc, Expr.isNone, Stmt.isNone, identsFlat, F_cons_cons, F_cons_append, F_cons_eflat, F_cons_sflat, F_cons_elflat, F_cons_slflat, F_cons_plflat, F_cons_map, F_cons_ite, FL_expectToken_ok, FC_expectToken_ok, cur_expectToken_ok, FL_expectSemi_ok, next_cur, List.append_assoc]) <;> (try solve_by_elim); done)
+               | (refine ⟨by simp_all [Expr.isNone], ?_⟩; intro P hP; spec_all P
+                  have hP' := append_ext hP
+                  (simp_all (maxDischargeDepth := 6) [expErr, semiErr, Expr.flat, Stmt.flat, ExprList.flat, StmtList.flat, PropList.flat, ExprList.flat_snoc, StmtList.flat_snoc, PropList.flat_snoc, Expr.isNone, Stmt.isNone, identsFlat, F_cons_cons, F_cons_append, F_cons_eflat, F_cons_sflat, F_cons_elflat, F_cons_slflat, F_cons_plflat, F_cons_map, F_cons_ite, FL_expectToken_ok, FC_expectToken_ok, cur_expectToken_ok, FL_expectSemi_ok, next_cur, List.append_assoc]) <;> (try solve_by_elim); done)
+               | ((simp_all (maxDischargeDepth := 6) [expErr, semiErr, Expr.flat, Stmt.flat, ExprList.flat, StmtList.flat, PropList.flat, ExprList.flat_snoc, StmtList.flat_snoc, PropList.flat_snoc, Expr.isNone, Stmt.isNone, identsFlat, F_cons_cons, F_cons_append, F_cons_eflat, F_cons_sflat, F_cons_elflat, F_cons_slflat, F_cons_plflat, F_cons_map, F_cons_ite, FL_expectToken_ok, FC_expectToken_ok, cur_expectToken_ok, FL_expectSemi_ok, next_cur, List.append_assoc]) <;> (try solve_by_elim); done)
+               | (spec_all (FC $(Lean.mkIdent `st)); (simp_all (maxDischargeDepth := 6) [expErr, semiErr, Expr.flat, Stmt.flat, ExprList.flat, StmtList.flat, PropList.flat, ExprList.flat_snoc, StmtList.flat_snoc, PropList.flat_snoc, Expr.isNone, Stmt.isNone, identsFlat, F_cons_cons, F_cons_append, F_cons_eflat, F_cons_sflat, F_cons_elflat, F_cons_slflat, F_cons_plflat, F_cons_map, F_cons_ite, FL_expectToken_ok, FC_expectToken_ok, cur_expectToken_ok, FL_expectSemi_ok, next_cur, List.append_assoc]) <;> (try solve_by_elim); done)
+               | (spec_all (FL $(Lean.mkIdent `st)); (simp_all (maxDischargeDepth := 6) [expErr, semiErr, Expr.flat, Stmt.flat, ExprList.flat, StmtList.flat, PropList.flat, ExprList.flat_snoc, StmtList.flat_snoc, PropList.flat_snoc, Expr.isNone, Stmt.isNone, identsFlat, F_cons_cons, F_cons_append, F_cons_eflat, F_cons_sflat, F_cons_elflat, F_cons_slflat, F_cons_plflat, F_cons_map, F_cons_ite, FL_expectToken_ok, FC_expectToken_ok, cur_expectToken_ok, FL_expectSemi_ok, next_cur, List.append_assoc]) <;> (try solve_by_elim); done)
+               | (spec_all (FL $(Lean.mkIdent `st)); simp only [FL_eq] at *; (simp_all (maxDischargeDepth := 6) [expErr, semiErr, Expr.flat, Stmt.flat, ExprList.flat, StmtList.flat, PropList.flat, ExprList.flat_snoc, StmtList.flat_snoc, PropList.flat_snoc, Expr.isNone, Stmt.isNone, identsFlat, F_cons_cons, F_cons_append, F_cons_eflat, F_cons_sflat, F_cons_elflat, F_cons_slflat, F_cons_plflat, F_cons_map, F_cons_ite, FL_expectToken_ok, FC_expectToken_ok, cur_expectToken_ok, FL_expectSemi_ok, next_cur, List.append_assoc]) <;> (try solve_by_elim); done))))
 
 set_option maxHeartbeats 3200000 in
-theorem complete_mutual (cfg : PCfg) :
-    (∀ is st r, parseStatementI cfg is st = some r → st.elen ≤ r.2.elen ∧ ((r.1.complete = true) ∨ st.elen < r.2.elen)) ∧
-    (∀ st r, baseParseStatement cfg st = some r → st.elen ≤ r.2.elen ∧ ((r.1.complete = true) ∨ st.elen < r.2.elen)) ∧
-    (∀ st r, parseExpressionStatement cfg st = some r → st.elen ≤ r.2.elen ∧ ((r.1.complete = true) ∨ st.elen < r.2.elen)) ∧
-    (∀ is prec st r, parseExpressionI cfg is prec st = some r → st.elen ≤ r.2.elen ∧ ((r.1.complete = true) ∨ st.elen < r.2.elen)) ∧
-    (∀ left prec st r, parseRemaining cfg left prec st = some r → st.elen ≤ r.2.elen ∧ ((left.complete = true → r.1.complete = true) ∨ st.elen < r.2.elen)) ∧
-    (∀ left st r, parseInfixExpression cfg left st = some r → st.elen ≤ r.2.elen ∧ ((left.complete = true → r.1.complete = true) ∨ st.elen < r.2.elen)) ∧
-    (∀ endTy st r, parseExpressionList cfg endTy st = some r → st.elen ≤ r.2.elen ∧ ((r.1.complete = true) ∨ st.elen < r.2.elen)) ∧
-    (∀ acc st r, exprListLoop cfg acc st = some r → st.elen ≤ r.2.elen ∧ ((acc.complete = true → r.1.complete = true) ∨ st.elen < r.2.elen)) ∧
-    (∀ st r, parsePrefixExpression cfg st = some r → st.elen ≤ r.2.elen ∧ ((r.1.complete = true) ∨ st.elen < r.2.elen)) ∧
-    (∀ st r, parseFunctionExpression cfg st = some r → st.elen ≤ r.2.elen ∧ ((r.1.complete = true) ∨ st.elen < r.2.elen)) ∧
-    (∀ st r, parseBlockStatement cfg st = some r → st.elen ≤ r.2.elen ∧ ((r.1.complete = true) ∨ st.elen < r.2.elen)) ∧
-    (∀ acc st r, blockLoop cfg acc st = some r → st.elen ≤ r.2.elen ∧ ((acc.complete = true → r.1.complete = true) ∨ st.elen < r.2.elen)) ∧
-    (∀ st r, parseObjectLiteral cfg st = some r → st.elen ≤ r.2.elen ∧ ((r.1.complete = true) ∨ st.elen < r.2.elen)) ∧
-    (∀ acc st r, objectLoop cfg acc st = some r → st.elen ≤ r.2.elen ∧ ((acc.complete = true → ∃ p, r.1 = some p ∧ p.complete = true) ∨ st.elen < r.2.elen)) ∧
-    (∀ st r, parseForStatement cfg st = some r → st.elen ≤ r.2.elen ∧ ((r.1.complete = true) ∨ st.elen < r.2.elen)) ∧
-    (∀ st r, parseForInit cfg st = some r → st.elen ≤ r.2.elen ∧ (((r.1.isNone || r.1.complete) = true) ∨ st.elen < r.2.elen)) ∧
-    (∀ st r, parseLetExpression cfg st = some r → st.elen ≤ r.2.elen ∧ ((r.1.complete = true) ∨ st.elen < r.2.elen)) ∧
-    (∀ st r, parseWhileStatement cfg st = some r → st.elen ≤ r.2.elen ∧ ((r.1.complete = true) ∨ st.elen < r.2.elen)) ∧
-    (∀ st r, parseIfStatement cfg st = some r → st.elen ≤ r.2.elen ∧ ((r.1.complete = true) ∨ st.elen < r.2.elen)) ∧
-    (∀ st r, parseReturnStatement cfg st = some r → st.elen ≤ r.2.elen ∧ ((r.1.complete = true) ∨ st.elen < r.2.elen)) ∧
-    (∀ st r, parseFunctionStatement cfg st = some r → st.elen ≤ r.2.elen ∧ ((r.1.complete = true) ∨ st.elen < r.2.elen)) ∧
-    (∀ st r, parseLetStatement cfg st = some r → st.elen ≤ r.2.elen ∧ ((r.1.complete = true) ∨ st.elen < r.2.elen)) := by
+theorem tokens_mutual (cfg : PCfg) :
+    (∀ is st r, parseStatementI cfg is st = some r → st.elen ≤ r.2.elen ∧ ((r.1.isNone = false ∧ FL r.2 = FC st ++ F r.1.flat) ∨ st.elen < r.2.elen)) ∧
+    (∀ st r, baseParseStatement cfg st = some r → st.elen ≤ r.2.elen ∧ ((r.1.isNone = false ∧ FL r.2 = FC st ++ F r.1.flat) ∨ st.elen < r.2.elen)) ∧
+    (∀ st r, parseExpressionStatement cfg st = some r → st.elen ≤ r.2.elen ∧ ((r.1.isNone = false ∧ FL r.2 = FC st ++ F r.1.flat) ∨ st.elen < r.2.elen)) ∧
+    (∀ is prec st r, parseExpressionI cfg is prec st = some r → st.elen ≤ r.2.elen ∧ ((r.1.isNone = false ∧ FL r.2 = FC st ++ F r.1.flat) ∨ st.elen < r.2.elen)) ∧
+    (∀ left prec st r, parseRemaining cfg left prec st = some r → st.elen ≤ r.2.elen ∧ (((left.isNone = false → r.1.isNone = false) ∧ ∀ P, FL st = P ++ F left.flat → FL r.2 = P ++ F r.1.flat) ∨ st.elen < r.2.elen)) ∧
+    (∀ left st r, parseInfixExpression cfg left st = some r → st.elen ≤ r.2.elen ∧ (((left.isNone = false → r.1.isNone = false) ∧ ∀ P, FL st = P ++ F left.flat → FL r.2 = P ++ F r.1.flat) ∨ st.elen < r.2.elen)) ∧
+    (∀ endTy st r, parseExpressionList cfg endTy st = some r → st.elen ≤ r.2.elen ∧ ((FL r.2 = FL st ++ F r.1.flat ++ F [endTy]) ∨ st.elen < r.2.elen)) ∧
+    (∀ acc st r, exprListLoop cfg acc st = some r → st.elen ≤ r.2.elen ∧ ((∀ P, FL st = P ++ F acc.flat → FL r.2 = P ++ F r.1.flat) ∨ st.elen < r.2.elen)) ∧
+    (∀ st r, parsePrefixExpression cfg st = some r → st.elen ≤ r.2.elen ∧ ((r.1.isNone = false ∧ FL r.2 = FC st ++ F r.1.flat) ∨ st.elen < r.2.elen)) ∧
+    (∀ st r, parseFunctionExpression cfg st = some r → st.elen ≤ r.2.elen ∧ ((r.1.isNone = false ∧ FL r.2 = FC st ++ F r.1.flat) ∨ st.elen < r.2.elen)) ∧
+    (∀ st r, parseBlockStatement cfg st = some r → st.elen ≤ r.2.elen ∧ ((r.1.isNone = false ∧ FL r.2 = FC st ++ F r.1.flat) ∨ st.elen < r.2.elen)) ∧
+    (∀ acc st r, blockLoop cfg acc st = some r → st.elen ≤ r.2.elen ∧ ((∀ P, FC st = P ++ F acc.flat → FC r.2 = P ++ F r.1.flat) ∨ st.elen < r.2.elen)) ∧
+    (∀ st r, parseObjectLiteral cfg st = some r → st.elen ≤ r.2.elen ∧ ((r.1.isNone = false ∧ FL r.2 = FC st ++ F r.1.flat) ∨ st.elen < r.2.elen)) ∧
+    (∀ acc st r, objectLoop cfg acc st = some r → st.elen ≤ r.2.elen ∧ ((∀ P, FC st = P ++ F acc.flat → ∃ p, r.1 = some p ∧ FL r.2 = P ++ F p.flat) ∨ st.elen < r.2.elen)) ∧
+    (∀ st r, parseForStatement cfg st = some r → st.elen ≤ r.2.elen ∧ ((r.1.isNone = false ∧ FL r.2 = FC st ++ F r.1.flat) ∨ st.elen < r.2.elen)) ∧
+    (∀ st r, parseForInit cfg st = some r → st.elen ≤ r.2.elen ∧ ((FL r.2 = FL st ++ F r.1.flat) ∨ st.elen < r.2.elen)) ∧
+    (∀ st r, parseLetExpression cfg st = some r → st.elen ≤ r.2.elen ∧ ((r.1.isNone = false ∧ FL r.2 = FC st ++ F r.1.flat) ∨ st.elen < r.2.elen)) ∧
+    (∀ st r, parseWhileStatement cfg st = some r → st.elen ≤ r.2.elen ∧ ((r.1.isNone = false ∧ FL r.2 = FC st ++ F r.1.flat) ∨ st.elen < r.2.elen)) ∧
+    (∀ st r, parseIfStatement cfg st = some r → st.elen ≤ r.2.elen ∧ ((r.1.isNone = false ∧ FL r.2 = FC st ++ F r.1.flat) ∨ st.elen < r.2.elen)) ∧
+    (∀ st r, parseReturnStatement cfg st = some r → st.elen ≤ r.2.elen ∧ ((r.1.isNone = false ∧ FL r.2 = FC st ++ F r.1.flat) ∨ st.elen < r.2.elen)) ∧
+    (∀ st r, parseFunctionStatement cfg st = some r → st.elen ≤ r.2.elen ∧ ((r.1.isNone = false ∧ FL r.2 = FC st ++ F r.1.flat) ∨ st.elen < r.2.elen)) ∧
+    (∀ st r, parseLetStatement cfg st = some r → st.elen ≤ r.2.elen ∧ ((r.1.isNone = false ∧ FL r.2 = FC st ++ F r.1.flat) ∨ st.elen < r.2.elen)) := by
   refine parseStatementI.mutual_partial_correctness cfg
-    (fun _ st r => st.elen ≤ r.2.elen ∧ ((r.1.complete = true) ∨ st.elen < r.2.elen))
-    (fun st r => st.elen ≤ r.2.elen ∧ ((r.1.complete = true) ∨ st.elen < r.2.elen))
-    (fun st r => st.elen ≤ r.2.elen ∧ ((r.1.complete = true) ∨ st.elen < r.2.elen))
-    (fun _ _ st r => st.elen ≤ r.2.elen ∧ ((r.1.complete = true) ∨ st.elen < r.2.elen))
-    (fun left _ st r => st.elen ≤ r.2.elen ∧ ((left.complete = true → r.1.complete = true) ∨ st.elen < r.2.elen))
-    (fun left st r => st.elen ≤ r.2.elen ∧ ((left.complete = true → r.1.complete = true) ∨ st.elen < r.2.elen))
-    (fun _ st r => st.elen ≤ r.2.elen ∧ ((r.1.complete = true) ∨ st.elen < r.2.elen))
-    (fun acc st r => st.elen ≤ r.2.elen ∧ ((acc.complete = true → r.1.complete = true) ∨ st.elen < r.2.elen))
-    (fun st r => st.elen ≤ r.2.elen ∧ ((r.1.complete = true) ∨ st.elen < r.2.elen))
-    (fun st r => st.elen ≤ r.2.elen ∧ ((r.1.complete = true) ∨ st.elen < r.2.elen))
-    (fun st r => st.elen ≤ r.2.elen ∧ ((r.1.complete = true) ∨ st.elen < r.2.elen))
-    (fun acc st r => st.elen ≤ r.2.elen ∧ ((acc.complete = true → r.1.complete = true) ∨ st.elen < r.2.elen))
-    (fun st r => st.elen ≤ r.2.elen ∧ ((r.1.complete = true) ∨ st.elen < r.2.elen))
-    (fun acc st r => st.elen ≤ r.2.elen ∧ ((acc.complete = true → ∃ p, r.1 = some p ∧ p.complete = true) ∨ st.elen < r.2.elen))
-    (fun st r => st.elen ≤ r.2.elen ∧ ((r.1.complete = true) ∨ st.elen < r.2.elen))
-    (fun st r => st.elen ≤ r.2.elen ∧ (((r.1.isNone || r.1.complete) = true) ∨ st.elen < r.2.elen))
-    (fun st r => st.elen ≤ r.2.elen ∧ ((r.1.complete = true) ∨ st.elen < r.2.elen))
-    (fun st r => st.elen ≤ r.2.elen ∧ ((r.1.complete = true) ∨ st.elen < r.2.elen))
-    (fun st r => st.elen ≤ r.2.elen ∧ ((r.1.complete = true) ∨ st.elen < r.2.elen))
-    (fun st r => st.elen ≤ r.2.elen ∧ ((r.1.complete = true) ∨ st.elen < r.2.elen))
-    (fun st r => st.elen ≤ r.2.elen ∧ ((r.1.complete = true) ∨ st.elen < r.2.elen))
-    (fun st r => st.elen ≤ r.2.elen ∧ ((r.1.complete = true) ∨ st.elen < r.2.elen))
+    (fun _ st r => st.elen ≤ r.2.elen ∧ ((r.1.isNone = false ∧ FL r.2 = FC st ++ F r.1.flat) ∨ st.elen < r.2.elen))
+    (fun st r => st.elen ≤ r.2.elen ∧ ((r.1.isNone = false ∧ FL r.2 = FC st ++ F r.1.flat) ∨ st.elen < r.2.elen))
+    (fun st r => st.elen ≤ r.2.elen ∧ ((r.1.isNone = false ∧ FL r.2 = FC st ++ F r.1.flat) ∨ st.elen < r.2.elen))
+    (fun _ _ st r => st.elen ≤ r.2.elen ∧ ((r.1.isNone = false ∧ FL r.2 = FC st ++ F r.1.flat) ∨ st.elen < r.2.elen))
+    (fun left _ st r => st.elen ≤ r.2.elen ∧ (((left.isNone = false → r.1.isNone = false) ∧ ∀ P, FL st = P ++ F left.flat → FL r.2 = P ++ F r.1.flat) ∨ st.elen < r.2.elen))
+    (fun left st r => st.elen ≤ r.2.elen ∧ (((left.isNone = false → r.1.isNone = false) ∧ ∀ P, FL st = P ++ F left.flat → FL r.2 = P ++ F r.1.flat) ∨ st.elen < r.2.elen))
+    (fun endTy st r => st.elen ≤ r.2.elen ∧ ((FL r.2 = FL st ++ F r.1.flat ++ F [endTy]) ∨ st.elen < r.2.elen))
+    (fun acc st r => st.elen ≤ r.2.elen ∧ ((∀ P, FL st = P ++ F acc.flat → FL r.2 = P ++ F r.1.flat) ∨ st.elen < r.2.elen))
+    (fun st r => st.elen ≤ r.2.elen ∧ ((r.1.isNone = false ∧ FL r.2 = FC st ++ F r.1.flat) ∨ st.elen < r.2.elen))
+    (fun st r => st.elen ≤ r.2.elen ∧ ((r.1.isNone = false ∧ FL r.2 = FC st ++ F r.1.flat) ∨ st.elen < r.2.elen))
+    (fun st r => st.elen ≤ r.2.elen ∧ ((r.1.isNone = false ∧ FL r.2 = FC st ++ F r.1.flat) ∨ st.elen < r.2.elen))
+    (fun acc st r => st.elen ≤ r.2.elen ∧ ((∀ P, FC st = P ++ F acc.flat → FC r.2 = P ++ F r.1.flat) ∨ st.elen < r.2.elen))
+    (fun st r => st.elen ≤ r.2.elen ∧ ((r.1.isNone = false ∧ FL r.2 = FC st ++ F r.1.flat) ∨ st.elen < r.2.elen))
+    (fun acc st r => st.elen ≤ r.2.elen ∧ ((∀ P, FC st = P ++ F acc.flat → ∃ p, r.1 = some p ∧ FL r.2 = P ++ F p.flat) ∨ st.elen < r.2.elen))
+    (fun st r => st.elen ≤ r.2.elen ∧ ((r.1.isNone = false ∧ FL r.2 = FC st ++ F r.1.flat) ∨ st.elen < r.2.elen))
+    (fun st r => st.elen ≤ r.2.elen ∧ ((FL r.2 = FL st ++ F r.1.flat) ∨ st.elen < r.2.elen))
+    (fun st r => st.elen ≤ r.2.elen ∧ ((r.1.isNone = false ∧ FL r.2 = FC st ++ F r.1.flat) ∨ st.elen < r.2.elen))
+    (fun st r => st.elen ≤ r.2.elen ∧ ((r.1.isNone = false ∧ FL r.2 = FC st ++ F r.1.flat) ∨ st.elen < r.2.elen))
+    (fun st r => st.elen ≤ r.2.elen ∧ ((r.1.isNone = false ∧ FL r.2 = FC st ++ F r.1.flat) ∨ st.elen < r.2.elen))
+    (fun st r => st.elen ≤ r.2.elen ∧ ((r.1.isNone = false ∧ FL r.2 = FC st ++ F r.1.flat) ∨ st.elen < r.2.elen))
+    (fun st r => st.elen ≤ r.2.elen ∧ ((r.1.isNone = false ∧ FL r.2 = FC st ++ F r.1.flat) ∨ st.elen < r.2.elen))
+    (fun st r => st.elen ≤ r.2.elen ∧ ((r.1.isNone = false ∧ FL r.2 = FC st ++ F r.1.flat) ∨ st.elen < r.2.elen))
     ?_ ?_ ?_ ?_ ?_ ?_ ?_ ?_ ?_ ?_ ?_ ?_ ?_ ?_ ?_ ?_ ?_ ?_ ?_ ?_ ?_ ?_
   case refine_11 =>
     intro bL ih_bL  st r h
     replace ih_bL := curry2 ih_bL
     dsimp only at ih_bL ⊢
     obtain ⟨x, st'⟩ := r
-    pdecompD h [ih_bL, cmp_parseFunctionParameters]
+    have e0 := FL_eq st
+    pdecompD h [ih_bL, tok_parseFunctionParameters]
     all_goals clear ih_bL
-    all_goals cmp_close
+    all_goals (simp only [elen_next, elen_push, elen_pop, elen_addError, elen_addErrorAt] at *)
+    all_goals first
+      | (refine ⟨?_, Or.inr ?_⟩ <;> omega)
+      | (refine ⟨?_, Or.inl ⟨by simp [Stmt.isNone], ?_⟩⟩
+         · omega
+         · spec_all (FL st)
+           simp only [FC_next, FL_push, StmtList.flat, F_nil, List.append_nil, forall_const] at *
+           simp only [FL_pop, FL_addError, cur_pop, cur_addError, Stmt.flat, F_cons_append, F_append, FL_eq]
+           simp_all [List.append_assoc, F_cons_slflat])
 
   all_goals sorry
 end Xjs
